@@ -36,10 +36,12 @@ TObserved ==
        IF c = Absent THEN Ev.exists = 0
        ELSE Ev.exists = 1 /\ Complete(c) /\ Ev.k = c[1]     \* byte-identical to the reference text of checkpoint c[1]
     /\ UNCHANGED <<fsVars, target, killed>> /\ l' = l + 1
+\* the run is started again from what is on disk (the directory keeps whatever the killed run left, e.g. a partial temporary file)
+TRestart == Is("Restart") /\ killed' = FALSE /\ UNCHANGED <<fsVars, target>> /\ l' = l + 1
 \* resuming from it ends with the final checkpoint of the uninterrupted run
 TResumed == Is("Resumed") /\ Ev.equal = 1 /\ UNCHANGED <<fsVars, target, killed>> /\ l' = l + 1
 
-Next == TReset \/ TMarker \/ TOpen \/ TWrite \/ TClose \/ TRename \/ TUnlink \/ TKilled \/ TObserved \/ TResumed
+Next == TRestart \/ TReset \/ TMarker \/ TOpen \/ TWrite \/ TClose \/ TRename \/ TUnlink \/ TKilled \/ TObserved \/ TResumed
 Spec == Init /\ [][Next]_vars
 TraceAccepted == TraceAcceptedBy(TraceLen)
 =============================================================================
